@@ -376,3 +376,9 @@ Lemma created_or_matched_is_found e l l1 : wf_entry e = true -> sync_entry e l =
 Proof.
   intros W H. pose proof (proj1 sync_fixed_all e W l l1 H) as S. split; [exact (proj1 S)|now apply stable_fixed].
 Qed.
+
+Lemma second_run_nothing g x x1 x2 : wf_groups g = true ->
+  sync_groups g x = Some x1 -> sync_groups g x1 = Some x2 -> x2 = x1 /\ size x2 = size x1.
+Proof.
+  intros W H1 H2. rewrite (sync_groups_idempotent g x x1 W H1) in H2. injection H2 as <-. auto.
+Qed.
